@@ -445,20 +445,20 @@ _comp_drawPoints.modifies = ["C01_Glyph.log_drawn", "C01_Glyph.log_pens", "C01_G
 
 
 def _removeComponent(ex, st, self, args, kwargs, node):
-    """glyph.removeComponent(c): the first occurrence of c is detached.  (Both UFO libraries raise ValueError when c is not
-    attached; that precondition is not tracked here — the bounded observer runs the real libraries.)"""
+    """glyph.removeComponent(c): the first occurrence of c is detached — modelled exactly when c is the first component, otherwise only
+    "the list does not grow".  (Both UFO libraries raise ValueError when c is not attached; that precondition is not tracked here —
+    the bounded observer runs the real libraries.)"""
     comps = ex.read_field(st, self, "components")
     s = comps.term
     c = lift(args[0])
-    i = z3.IndexOf(s, z3.Unit(c), 0)
-    generic = z3.If(i >= 0, z3.Concat(z3.Extract(s, 0, i), z3.Extract(s, i + 1, z3.Length(s) - i - 1)), s)
-    # the case that occurs (c is the first attached component) is stated position-wise, which the solvers handle
-    # much better than extract/indexof terms; the general case keeps the exact sequence term
+    # the case that occurs in decomposeCompositeGlyph (c is the FIRST attached component) is stated position-wise; for any other
+    # position the model only says that nothing is added (weaker than the library: no clause under contract needs more, and the exact
+    # extract/indexof term of the general case made the solvers unstable)
     head = z3.And(z3.Length(s) > 0, s[0] == c)
     r = fresh(comps.ty, "removed")
     k = z3.Int("rk!" + str(id(node) % 100000))
     st.assume(z3.Implies(head, z3.And(z3.Length(r) == z3.Length(s) - 1, z3.ForAll([k], z3.Implies(z3.And(0 <= k, k < z3.Length(r)), r[k] == s[k + 1])))))
-    st.assume(z3.Implies(z3.Not(head), r == generic))
+    st.assume(z3.Implies(z3.Not(head), z3.Length(r) <= z3.Length(s)))
     new = r
     ex.write_field(st, self, "components", Val(comps.ty, new), node)
     return Val.const(None)
@@ -481,9 +481,16 @@ _DCG_LOOP = {
             # full decomposition: the not yet processed suffix is still attached, in order ...
             "remaining": "implies(include is None, len(glyph.components) == len(CS) - i and all(glyph.components[k] == CS[i + k] for k in range(len(CS) - i)))",
             # ... and the processed prefix was drawn, in order, each exactly once (when no base was missing and skipped)
-            "drawn-all": "implies(include is None and " + _ALLPRESENT + ", len(glyph.log_drawn) == len(L0) + i and all(glyph.log_drawn[len(L0) + k] == CS[k] for k in range(i)))",
-            "drawn-prefix": "len(glyph.log_drawn) >= len(L0) and all(glyph.log_drawn[k] == L0[k] for k in range(len(L0))) and len(glyph.log_drawn) <= len(L0) + i",
-            "pens": "len(glyph.log_pens) >= len(P0) and all(glyph.log_pens[k] == P0[k] for k in range(len(P0))) and all(glyph.log_pens[k] == pen for k in range(len(P0), len(glyph.log_pens)))",
+            # allp (ghost flag, updated once per iteration): no base of the processed prefix was missing.  The facts that depend on it use
+            # the FLAG as their antecedent (a quantified antecedent made the step obligations solver-dependent)
+            "all-present-flag": "allp == " + _ALLPRESENT,
+            "drawn-all-len": "implies(include is None and allp, len(glyph.log_drawn) == len(L0) + i)",
+            "drawn-all": "implies(include is None and allp, all(glyph.log_drawn[len(L0) + k] == CS[k] for k in range(i)))",
+            "drawn-len": "len(glyph.log_drawn) >= len(L0) and len(glyph.log_drawn) <= len(L0) + i",
+            "drawn-prefix": "all(glyph.log_drawn[k] == L0[k] for k in range(len(L0)))",
+            "pens-len": "len(glyph.log_pens) >= len(P0)",
+            "pens-prefix": "all(glyph.log_pens[k] == P0[k] for k in range(len(P0)))",
+            "pens-new": "all(glyph.log_pens[k] == pen for k in range(len(P0), len(glyph.log_pens)))",
             "none-missing": "skipMissing or all(implies(" + _INCLUDED.format(c="CS[a]") + ", CS[a].baseGlyph in glyphSet) for a in range(i))",
         },
     )
@@ -507,7 +514,8 @@ def _dcg_contract(name, params, requires, extra_ensures):
         params=params,
         requires=requires,
         modifies=["C01_Glyph.components", "C01_Glyph.log_drawn", "C01_Glyph.log_pens"],
-        ghost_vars={"L0": (List(Ref("C01_Component")), "glyph.log_drawn"), "P0": (List(Ref("DecomposingFilterPointPen")), "glyph.log_pens")},
+        ghost_vars={"L0": (List(Ref("C01_Component")), "glyph.log_drawn"), "P0": (List(Ref("DecomposingFilterPointPen")), "glyph.log_pens"), "allp": (BOOL, "True")},
+        ghost={"glyph.removeComponent(component)": ["allp = allp and (component.baseGlyph in glyphSet)"]},
         ensures={
             # every pen that drew into the glyph during the call carries exactly the options passed in
             "pen-options": S(f"all(glyph.log_pens[k].reverseFlipped == $reverseFlipped and glyph.log_pens[k].include == $include"
